@@ -26,6 +26,8 @@ def run(ctx, sess):
     from .common import relay
     from . import c06 as _src_c06
     relay(ctx, sess, _src_c06.run, {'C06.2': 'C14.10'})
+    ctx.rule('C14.13', 'the process lock that serialises the two threads at the file is a lock: every lock operation of the backend either returns with the mutex held or the caller sees the failure - a lock that can time out behind a caller that ignores the result lets both threads write at the shared file position (shared with C06.3: may-held equals must-held at every lock operation)')
+    relay(ctx, sess, _src_c06.run, {'C06.3': 'C14.13'}, minimum=10)
     P = sess.prog('default')
     exc = exceptions('C14')
     ctx.rule('C14.1', 'single write point: libc write only in jls_bk_fwrite, ftruncate only in jls_bk_truncate, and jls_bk_truncate is not reachable from any writer API root')
